@@ -45,6 +45,40 @@ def evaluate(spec):
     return {"sig": sig, "detail": detail, "nontrivial": max(per_dir) >= 2, "key": key, "labels": labels}
 
 
+def evaluate_resumed(spec):
+    """a session and its resumption in one capture: a full handshake and an abbreviated one with the SAME master secret and their own
+    randoms (TLS <= 1.2 keys depend on master secret and both randoms) - both connections are exported exactly"""
+    b = scenario.build(spec)
+    o = oracle.run_e2e(b, engine.workdir())
+    sig = oracle.base_failure(o)
+    detail = (o.run.exc or "")[-400:] if sig else ""
+    if sig is None:
+        for ci, cs in enumerate(spec["conns"]):
+            s0, d0 = oracle.tls_flow_check(o, b.conns[ci], cs["ep"])
+            if s0:
+                sig, detail = ("resumed connection: " if cs.get("abbreviated") else "original connection of a resumed session: ") + s0, d0
+                break
+    conn = b.conns[0]
+    return {"sig": sig, "detail": detail, "nontrivial": True, "key": "res%04x/%04x/%s" % (conn.v, conn.s.code, spec["tseed"]),
+            "labels": ["resumption-pair", tlsref.VERSION_NAMES[conn.v], "kind:" + conn.s.kind]}
+
+
+def resumed_specs():
+    out = []
+    picks = [(0x002F, tlsref.TLS12), (0xC02F, tlsref.TLS12), (0x003D, tlsref.TLS12), (0x0005, tlsref.TLS12), (0xCCA8, tlsref.TLS12), (0x0035, tlsref.TLS11), (0x000A, tlsref.TLS10),
+              (0x0004, tlsref.SSL30), (0xC0AC, tlsref.TLS12)]
+    i = 0
+    for code, ver in picks:
+        for order in ([0, 1], [0] * 30 + [1] * 30, [1] * 30 + [0] * 30):
+            a = {"kind": "tls", "seed": 4400 + 2 * i, "version": ver, "suite": code, "share_master": 700 + i, "history": [[0, 40, 0], [1, 300, 0], [0, 12, 0], [1, 9, 0]],
+                 "ep": scenario.default_ep(2 * (i % 40)), "tcp": {"mode": "rec", "syn": True, "acks": False, "mss": 1400, "isn_c": 11, "isn_s": 77}}
+            r = dict(a, seed=4401 + 2 * i, abbreviated=True, sid_len=32, tickets=i % 2 if ver != tlsref.SSL30 else 0, history=[[0, 33, 0], [1, 250, 0], [1, 7, 0], [0, 5, 0]],
+                     ep=scenario.default_ep(2 * (i % 40) + 1))
+            out.append({"conns": [a, r], "order": order, "tseed": 1 + i})
+            i += 1
+    return out
+
+
 def sweep_specs(variant=0):
     """the complete (suite, version, EtM) sweep with a short two-direction history that carries cipher state"""
     out = []
@@ -125,7 +159,7 @@ def evaluate_sample(spec):
 def stages(tier):
     quick = tier == "quick"
     st = [Stage("repo-samples", evaluate_sample, specs=sample_specs()), Stage("sweep", evaluate, specs=sweep_specs(0)),
-          Stage("sh-follow", evaluate, specs=sh_follow_specs())]
+          Stage("sh-follow", evaluate, specs=sh_follow_specs()), Stage("resumed-session-pairs", evaluate_resumed, specs=resumed_specs())]
     if not quick:
         for v in range(1, 8):
             st.append(Stage(f"sweep-v{v}", evaluate, specs=sweep_specs(v)))
@@ -140,7 +174,7 @@ def stages(tier):
 
 
 RULE = ("stage repo-samples: the repository's own captures of real TLS stacks must export the 'Lorem ipsum' text its end-to-end test expects "
-        "(anchor independent of the reference encoder); then: one TLS connection per case, generated from (suite x valid version x EtM) x handshake shape x record history x TCP "
+        "(anchor independent of the reference encoder); stage resumed-session-pairs: a full handshake and its resumption (same master secret, own randoms) in one capture, 9 suite/version classes x 3 interleavings; then: one TLS connection per case, generated from (suite x valid version x EtM) x handshake shape x record history x TCP "
         "segmentation x endpoints; stage 'sweep' enumerates ALL table combinations; a case is non-trivial when the handshake "
         "completes and at least one direction carries >= 2 application records (cipher state carried across records); distinct "
         "= distinct (version, suite, EtM, spec-without-seed hash)")
